@@ -705,6 +705,35 @@ def hs_retx_cases():
     return out
 
 
+def blocked_writer_cases():
+    """Deterministic family (always emitted, C06): receive cap smaller than the transfer, no loss, no delay.  X's writer
+    is parked behind Y's closed window with bytes still queued; Y writes back to X meanwhile; Y reads only after more
+    than retx_threshold*(retx_max+1) egress rounds.  Y's bytes must be acknowledged (X owes bare ACKs although it has
+    queued payload it cannot send), nobody is aborted, everything and EOF arrive.  Loopback and two hosts."""
+    out = []
+    for (th, mx, loop, swap, v6) in [(3, 5, True, False, False), (3, 5, False, False, False), (2, 3, False, True, True),
+                                     (2, 3, True, True, False)]:
+        cfg = full_cfg({"retx_threshold": th, "retx_max": mx, "backlog": 4, "send_cap": 64, "recv_cap": 16, "v6": v6})
+        sc = Script()
+        ls, cs, as_ = handshake(sc, loop=loop, listen_ia=(1 if loop else 3))
+        x, y = (cs, as_) if not swap else (as_, cs)
+        sc.add(["write", x, pattern(10, 0, 60)])
+        for _ in range(4):
+            sc.add(E, ["flush"])
+        sc.add(["write", y, [49, 50, 51, 52]])
+        for _ in range(th * (mx + 1) + 4):
+            sc.add(E, ["flush"], ["read", x, 8])
+        for _ in range(10):
+            sc.add(["read", y, 16], E, ["flush"], E, ["flush"])
+        sc.add(["shutdown", x], ["shutdown", y])
+        for _ in range(th * (mx + 1) + 6):
+            sc.add(E, ["flush"], ["read", x, 16], ["read", y, 16])
+        sc.add(["read", x, 16], ["read", y, 16], ["rows", 0], ["rows", 1], ["netstat", 0], ["netstat", 1])
+        out.append({"cfg": cfg, "script": sc.s, "flavour": "blocked_writer",
+                    "plan": {"w": x, "r": y, "both": True, "fair_from": 0, "drops": 0, "ls": ls}})
+    return out
+
+
 def wrap_cases(rng=None):
     """Sequence numbers crossing 2^32 (verif hook set_isn): ISN = 2^32 - k on both hosts, transfer larger than k in both
     directions, both roles, with and without one lost data segment; the model computes on unbounded naturals and the
